@@ -75,7 +75,7 @@ Read(e) ==
         \*  error must not turn into a clean end of stream)
         <<~(s.errRep /\ ~s.closedRep /\ s.mode # "srcfault" /\ (e.n > 0 \/ e.err = "eof")), "R_NothingAfterError">>,
         \* C17: a closed reader refuses
-        <<~(s.closedRep /\ (e.n > 0 \/ e.err = "eof" \/ (e.err = "none" /\ e.len > 0))), "C17_read_after_close">>,
+        <<~(s.closedRep /\ (e.n > 0 \/ e.err = "eof" \/ e.err = "none")), "C17_read_after_close">>,
         \* C09/C08: clean EOF only when everything expected was delivered and the stream is not truncated
         <<~(e.err = "eof" /\ s.mode # "nock" /\ (d2 # s.total \/ s.mode = "truncated")), "R_EOFOnlyAtEnd">>,
         \* C01/C05: a clean stream never fails and never over-delivers
